@@ -590,18 +590,22 @@ def normalize_def(d):
     for cb in d["cbs"]:
         if cb.get("alias"):
             sets.setdefault(cb["alias"], []).append(cb)
-    for members in sets.values():
-        key = {(cb["prov"], cb["style"], cb["name"], cb["okind"], cb["owner"], cb["tix"]) for cb in members}
-        groups = [cb["group"] for cb in members]
-        if len(key) != 1 or len(members) < 2 or len(set(groups)) != len(groups) or members[0]["style"] not in ("name", "callable", "method"):
+    for label, allm in sets.items():
+        parts = {}
+        for cb in allm:
+            parts.setdefault((cb["prov"], cb["style"], cb["name"], cb["okind"], cb["owner"], cb["tix"]), []).append(cb)
+        for n, members in enumerate(parts.values()):
+            groups = [cb["group"] for cb in members]
+            if len(members) < 2 or len(set(groups)) != len(groups) or members[0]["style"] not in ("name", "callable", "method"):
+                for cb in members:
+                    cb.pop("alias", None)
+                continue
+            coro = any(cb["coro"] for cb in members)
+            ys = max(cb["yields"] for cb in members)
             for cb in members:
-                cb.pop("alias", None)
-            continue
-        coro = any(cb["coro"] for cb in members)
-        ys = max(cb["yields"] for cb in members)
-        for cb in members:
-            cb["coro"], cb["yields"] = coro, (ys if coro else 0)
-            cb.pop("defer", None)
+                cb["alias"] = label if len(parts) == 1 else f"{label}.{n}"
+                cb["coro"], cb["yields"] = coro, (ys if coro else 0)
+                cb.pop("defer", None)
     d.setdefault("evstyle", "param")
     d.setdefault("strict", False)
     d["events"] = declared_events(d)
